@@ -1301,4 +1301,312 @@ theorem validate_all {β : Type} (subst : List (List α) → β) (isPsd : β →
     cases hj : d.joint with
     | false => left; rfl
     | true => right; exact h d hd hj
+
+
+theorem pickDist_names (d : Dist α) (p : String → Bool) : (pickDist d p).names = d.names.filter p := by
+  unfold pickDist
+  rw [← selIdx_map_fst p d.names]
+  split
+  · rename_i x hx; simp [normal, hx]
+  · rfl
+
+theorem pickDist_cov (d : Dist α) (hj : d.joint = true) (hn : d.names.Nodup) (p : String → Bool) {a b : String}
+    (ha : a ∈ d.names) (hb : b ∈ d.names) (hpa : p a = true) (hpb : p b = true) :
+    (pickDist d p).getCov a b = d.getCov a b := by
+  obtain ⟨i', ma, hia, hma, hda, _⟩ := selIdx_pos hn p ha hpa
+  obtain ⟨j', mb, hjb, hmb, hdb, _⟩ := selIdx_pos hn p hb hpb
+  rw [getCov_joint d hj a b ma mb hda hdb]
+  unfold pickDist
+  generalize selIdx p d.names = sel at *
+  match sel with
+  | [] => simp at hia
+  | [x] =>
+    simp only [List.map_cons, List.map_nil, List.idxOf?_singleton] at hia hjb hma hmb
+    have hxa : x.1 = a := by
+      by_cases h : x.1 = a
+      · exact h
+      · simp [h] at hia
+    have hxb : x.1 = b := by
+      by_cases h : x.1 = b
+      · exact h
+      · simp [h] at hjb
+    have hi0 : i' = 0 := by simp [hxa] at hia; omega
+    have hj0 : j' = 0 := by simp [hxb] at hjb; omega
+    subst hi0 hj0
+    simp at hma hmb
+    subst hma hmb
+    subst hxa
+    simp [normal, Dist.getCov, ent, ← hxb]
+  | x :: y :: l =>
+    simp only
+    rw [getCov_joint _ rfl a b i' j' hia hjb, ent_subMat _ _ _ _ _ _ hma hmb]
+
+theorem distGetitem_ok {d : Dist α} {index : List String} {res : Dist α} (h : distGetitem d index = .ok res) :
+    res = d ∨ res = pickDist d (index.eraseDups.contains ·) := by
+  unfold distGetitem at h
+  split at h
+  · cases h
+  · split at h
+    · cases h
+    · split at h
+      · injection h with h; exact Or.inl h.symm
+      · injection h with h; exact Or.inr h.symm
+
+
+theorem names_map_subs (fe : α → α) (fn : String → String) (r : RVs α) :
+    names (r.map (subsDist fe fn)) = (names r).map fn := by
+  induction r with
+  | nil => rfl
+  | cons d r ih => simp [names_cons, ih, subsDist]
+
+theorem idxOf?_map_inj (fn : String → String) (ns : List String) (a : String)
+    (hinj : ∀ x ∈ ns, fn x = fn a → x = a) : (ns.map fn).idxOf? (fn a) = ns.idxOf? a := by
+  induction ns with
+  | nil => rfl
+  | cons x l ih =>
+    simp only [List.map_cons, List.idxOf?_cons]
+    have ih' := ih (fun y hy => hinj y (List.mem_cons_of_mem _ hy))
+    by_cases hx : x = a
+    · subst hx; simp
+    · have : ¬ fn x = fn a := fun h => hx (hinj x List.mem_cons_self h)
+      simp [hx, this, ih']
+
+theorem ent_map (fe : α → α) (M : List (List α)) (i j : Nat) (hi : i < M.length)
+    (hj : j < (M.getD i []).length) : ent (M.map (·.map fe)) i j = fe (ent M i j) := by
+  simp only [ent, List.getD_eq_getElem?_getD] at hj ⊢
+  simp [hi] at hj ⊢
+  simp [hj]
+
+
+theorem subs_ok {fe : α → α} {fn : String → String} {r res : RVs α} (h : subs fe fn r = .ok res) :
+    res = r.map (subsDist fe fn) ∧ (names res).Nodup := by
+  unfold subs at h
+  obtain ⟨h1, h2⟩ := create_ok_eq _ _ h
+  exact ⟨h1, by rw [h1]; exact h2⟩
+
+/-- `subs`: the covariance of two variables of one (rectangular) block is the substituted old one,
+    under the new names, when the renaming does not merge names. -/
+theorem subs_cov_same' {fe : α → α} {fn : String → String} {r res : RVs α} (h : subs fe fn r = .ok res)
+    (hinj : ∀ x ∈ names r, ∀ y ∈ names r, fn x = fn y → x = y) {d : Dist α} (hd : d ∈ r)
+    (hsq : Square d) (hrows : d.var.length = d.names.length) (hrect : ∀ row ∈ d.var, row.length = d.names.length)
+    {a b : String} (ha : a ∈ d.names) (hb : b ∈ d.names) :
+    ∃ v, d.getCov a b = .ok v ∧ getCov res (fn a) (fn b) = .ok (fe v) := by
+  obtain ⟨hres, hnd⟩ := subs_ok h
+  have hdm : subsDist fe fn d ∈ res := by rw [hres]; exact List.mem_map.mpr ⟨d, hd, rfl⟩
+  have han : fn a ∈ (subsDist fe fn d).names := List.mem_map.mpr ⟨a, ha, rfl⟩
+  have hbn : fn b ∈ (subsDist fe fn d).names := List.mem_map.mpr ⟨b, hb, rfl⟩
+  rw [getCov_of_mem res hnd _ hdm _ _ han hbn, dist_getCov_idx d hsq ha hb]
+  refine ⟨_, rfl, ?_⟩
+  have hsub : ∀ x ∈ d.names, x ∈ names r := fun x hx => mem_names.mpr ⟨d, hd, hx⟩
+  have hia := idxOf?_map_inj fn d.names a (fun x hx hxa => hinj x (hsub x hx) a (hsub a ha) hxa)
+  have hib := idxOf?_map_inj fn d.names b (fun x hx hxb => hinj x (hsub x hx) b (hsub b hb) hxb)
+  rw [idxOf?_eq_idxOf ha] at hia
+  rw [idxOf?_eq_idxOf hb] at hib
+  have hi := List.idxOf_lt_length_of_mem ha
+  have hj := List.idxOf_lt_length_of_mem hb
+  have hrow : (d.var.getD (d.names.idxOf a) []).length = d.names.length := by
+    apply hrect
+    rw [List.getD_eq_getElem?_getD, List.getElem?_eq_getElem (by omega)]
+    simp
+  by_cases hjn : d.joint = true
+  · rw [getCov_joint _ (by simpa [subsDist] using hjn) _ _ _ _ hia hib]
+    congr 1
+    simp only [subsDist]
+    exact ent_map fe d.var _ _ (by omega) (by omega)
+  · have hsq' := hsq
+    simp only [Square, hjn] at hsq'
+    simp only [Bool.false_eq_true, if_false] at hsq'
+    match hnm : d.names, hsq' with
+    | [n], _ =>
+      rw [hnm] at ha hb hrow hrows
+      have ha' : a = n := by simpa using ha
+      have hb' : b = n := by simpa using hb
+      rw [ha'] at hrow
+      rw [ha', hb']
+      simp only [Dist.getCov, subsDist, hjn, hnm]
+      simp only [Bool.false_eq_true, if_false, List.map_cons, List.map_nil, and_self, if_true]
+      congr 1
+      have e0 : List.idxOf n [n] = 0 := by simp
+      rw [e0] at hrow ⊢
+      have h1 : 0 < d.var.length := by rw [hrows]; simp
+      have h2 : 0 < (d.var.getD 0 []).length := by rw [hrow]; simp
+      exact ent_map fe d.var 0 0 h1 h2
+
+
+def SymM (M : Mat α) : Prop := ∀ r c, M r c = M c r
+
+/-- One step of the `name_template` loop. -/
+def nameStep (nm : Nat → Nat → Option α) (acc : Mat α × List (Nat × Nat)) (rc : Nat × Nat) :
+    Mat α × List (Nat × Nat) :=
+  if acc.1 rc.1 rc.2 = 0 ∧ rc.1 > rc.2 then
+    let s := (nm rc.2 rc.1).getD 0
+    (setM (setM acc.1 rc.1 rc.2 s) rc.2 rc.1 s, acc.2 ++ [rc])
+  else acc
+
+theorem nameMat_eq (nm : Nat → Nat → Option α) (n : Nat) (M : Mat α) :
+    nameMat nm n M = (pairs n).foldl (nameStep nm) (M, []) := rfl
+
+theorem nameStep_inv (nm : Nat → Nat → Option α) (M : Mat α) (acc : Mat α × List (Nat × Nat)) (rc : Nat × Nat)
+    (h1 : SymM acc.1) (h2 : ∀ r c, M r c ≠ 0 → acc.1 r c = M r c) :
+    SymM (nameStep nm acc rc).1 ∧ ∀ r c, M r c ≠ 0 → (nameStep nm acc rc).1 r c = M r c := by
+  unfold nameStep
+  by_cases hc : acc.1 rc.1 rc.2 = 0 ∧ rc.1 > rc.2
+  · rw [if_pos hc]
+    simp only
+    constructor
+    · intro r c
+      simp only [setM]
+      by_cases e1 : r = rc.2 ∧ c = rc.1
+      · have e1' : c = rc.1 ∧ r = rc.2 := ⟨e1.2, e1.1⟩
+        by_cases e2 : c = rc.2 ∧ r = rc.1
+        · simp [e1, e2]
+        · simp [e1, e2, e1']
+      · by_cases e2 : r = rc.1 ∧ c = rc.2
+        · have e2' : c = rc.2 ∧ r = rc.1 := ⟨e2.2, e2.1⟩
+          simp [e1, e2, e2']
+        · have e3 : ¬ (c = rc.2 ∧ r = rc.1) := fun h => e2 ⟨h.2, h.1⟩
+          have e4 : ¬ (c = rc.1 ∧ r = rc.2) := fun h => e1 ⟨h.2, h.1⟩
+          simp [e1, e2, e3, e4, h1 r c]
+    · intro r c hne
+      simp only [setM]
+      have hacc := h2 r c hne
+      by_cases e1 : r = rc.2 ∧ c = rc.1
+      · exfalso
+        have : acc.1 rc.2 rc.1 = 0 := by rw [h1 rc.2 rc.1]; exact hc.1
+        rw [e1.1, e1.2] at hacc hne
+        exact hne (hacc ▸ this)
+      · by_cases e2 : r = rc.1 ∧ c = rc.2
+        · exfalso
+          rw [e2.1, e2.2] at hacc hne
+          exact hne (hacc ▸ hc.1)
+        · simp [e1, e2, hacc]
+  · rw [if_neg hc]; exact ⟨h1, h2⟩
+
+theorem nameMat_inv (nm : Nat → Nat → Option α) (n : Nat) (M : Mat α) (hs : SymM M) :
+    SymM (nameMat nm n M).1 ∧ ∀ r c, M r c ≠ 0 → (nameMat nm n M).1 r c = M r c := by
+  rw [nameMat_eq]
+  suffices h : ∀ (L : List (Nat × Nat)) (acc : Mat α × List (Nat × Nat)), SymM acc.1 →
+      (∀ r c, M r c ≠ 0 → acc.1 r c = M r c) →
+      SymM (L.foldl (nameStep nm) acc).1 ∧ ∀ r c, M r c ≠ 0 → (L.foldl (nameStep nm) acc).1 r c = M r c from
+    h (pairs n) (M, []) hs (fun _ _ _ => rfl)
+  intro L
+  induction L with
+  | nil => intro acc h1 h2; exact ⟨h1, h2⟩
+  | cons rc L ih =>
+    intro acc h1 h2
+    simp only [List.foldl_cons]
+    obtain ⟨h1', h2'⟩ := nameStep_inv nm M acc rc h1 h2
+    exact ih _ h1' h2'
+
+
+/-- Every block is a symmetric matrix. -/
+def SymBlocks (r : RVs α) : Prop := ∀ d ∈ r, ∀ i j, ent d.var i j = ent d.var j i
+
+theorem ent_subMat_gen (M : List (List α)) (idx : List Nat) (i j : Nat) :
+    ent (subMat M idx) i j = match idx[i]?, idx[j]? with
+      | some a, some b => ent M a b
+      | _, _ => 0 := by
+  simp only [ent, subMat, List.getD_eq_getElem?_getD, List.getElem?_map]
+  cases hi : idx[i]? <;> cases hj : idx[j]? <;> simp [hj]
+
+theorem subMat_sym (M : List (List α)) (idx : List Nat) (h : ∀ i j, ent M i j = ent M j i) (i j : Nat) :
+    ent (subMat M idx) i j = ent (subMat M idx) j i := by
+  rw [ent_subMat_gen, ent_subMat_gen]
+  cases hi : idx[i]? <;> cases hj : idx[j]? <;> simp [h]
+
+theorem ent_single_sym (v : α) (i j : Nat) : ent [[v]] i j = ent [[v]] j i := by
+  match i, j with
+  | 0, 0 => rfl
+  | 0, j + 1 => simp [ent]
+  | i + 1, 0 => simp [ent]
+  | i + 1, j + 1 => simp [ent]
+
+theorem unjoinDist_sym (inds : List String) (d : Dist α) (hd : ∀ i j, ent d.var i j = ent d.var j i) :
+    ∀ k ∈ unjoinDist inds d, ∀ i j, ent k.var i j = ent k.var j i := by
+  intro k hk
+  cases ht : touched inds d with
+  | false =>
+    rw [unjoinDist_untouched ht] at hk
+    simp at hk; subst hk; exact hd
+  | true =>
+    have hta : touched inds d = (d.joint && d.names.any (inds.contains ·)) := rfl
+    unfold unjoinDist at hk
+    rw [← hta, ht] at hk
+    simp only [if_true] at hk
+    rcases List.mem_append.mp hk with h | h
+    · obtain ⟨x, _, rfl⟩ := List.mem_map.mp h
+      exact ent_single_sym _
+    · generalize selIdx (fun n => !inds.contains n) d.names = kept at *
+      match kept with
+      | [] => simp at h
+      | [x] => simp at h; subst h; exact ent_single_sym _
+      | x :: y :: l =>
+        simp at h; subst h
+        exact subMat_sym _ _ hd
+
+theorem getitem_sym {r : RVs α} (hq : SymBlocks r) (ind : List String) : SymBlocks (getitem r ind) := by
+  intro k hk
+  have := (List.mem_filter.mp hk).1
+  obtain ⟨d, hd, hkd⟩ := mem_unjoin.mp this
+  exact unjoinDist_sym _ d (hq d hd) k hkd
+
+theorem blockDiagF_sym (bs : List (Nat × List (List α))) (h : ∀ b ∈ bs, ∀ i j, ent b.2 i j = ent b.2 j i)
+    (r c : Nat) (z : α) : blockDiagF bs r c z = blockDiagF bs c r z := by
+  induction bs generalizing r c with
+  | nil => rfl
+  | cons b bs ih =>
+    obtain ⟨k, V⟩ := b
+    simp only [blockDiagF]
+    have hV := h (k, V) List.mem_cons_self
+    have ih' := ih (fun b hb => h b (List.mem_cons_of_mem _ hb))
+    by_cases h1 : r < k ∧ c < k
+    · rw [if_pos h1, if_pos ⟨h1.2, h1.1⟩]; exact hV r c
+    · rw [if_neg h1, if_neg (show ¬(c < k ∧ r < k) from fun h' => h1 ⟨h'.2, h'.1⟩)]
+      by_cases h2 : r < k ∨ c < k
+      · rw [if_pos h2, if_pos (show c < k ∨ r < k from h2.symm)]
+      · rw [if_neg h2, if_neg (show ¬(c < k ∨ r < k) from fun h' => h2 h'.symm)]
+        exact ih' _ _
+
+theorem calcMat_sym (r : RVs α) (hq : ∀ d ∈ r, Square d) (hs : SymBlocks r) : SymM (calcMat r) := by
+  intro i j
+  rw [calcMat_apply r hq, calcMat_apply r hq]
+  apply blockDiagF_sym
+  intro b hb
+  obtain ⟨d, hd, rfl⟩ := List.mem_map.mp hb
+  exact hs d hd
+
+/-- `join(inds, name_template=…)`: an existing non-zero covariance (or variance) between joined
+    variables is kept (blocks symmetric). -/
+theorem join_cov_inside_template' {r : RVs α} (hn : (names r).Nodup) (hq : ∀ d ∈ r, Square d)
+    (hsym : SymBlocks r) {inds : List String} {nm : Nat → Nat → Option α} {res : JoinResult α}
+    (h : join r inds (.template nm) = .ok res)
+    {a b : String} (ha : a ∈ names r) (hb : b ∈ names r) (hai : a ∈ inds) (hbi : b ∈ inds)
+    {v : α} (hv : getCov r a b = .ok v) (hv0 : v ≠ 0) : getCov res.rvs a b = .ok v := by
+  have hs := singles_of_square hq
+  have hnR : (names res.rvs).Nodup := (join_names_perm' hs h).nodup_iff.mpr hn
+  obtain ⟨_, j0, rest, _, hres⟩ := join_ok h
+  have hnames := getitem_names' r hs inds
+  have haJ : a ∈ names (getitem r inds) := by rw [hnames]; simp [ha, hai]
+  have hbJ : b ∈ names (getitem r inds) := by rw [hnames]; simp [hb, hbi]
+  have hqJ := getitem_square hq inds
+  have hcov := blockDiag_getCov (getitem r inds) hqJ haJ hbJ
+  rw [getitem_cov' hn hs inds ha hb hai hbi, hv] at hcov
+  injection hcov with hcov
+  rw [hres] at hnR ⊢
+  have hjd := jd_mem_of_ind (r := r) inds
+    ⟨names (getitem r inds), j0.level, true, (getitem r inds).flatMap (·.mean),
+      (joinMatrix (getitem r inds) (.template nm)).1⟩ ha hai
+  rw [getCov_of_mem _ hnR _ hjd a b haJ hbJ]
+  rw [getCov_joint _ rfl a b _ _ (idxOf?_eq_idxOf haJ) (idxOf?_eq_idxOf hbJ)]
+  have hi := List.idxOf_lt_length_of_mem haJ
+  have hj := List.idxOf_lt_length_of_mem hbJ
+  rw [← nrvs_eq_length] at hi hj
+  congr 1
+  simp only [joinMatrix]
+  rw [ent_tabulate _ _ _ _ hi hj]
+  have hinv := (nameMat_inv nm (nrvs (getitem r inds)) (calcMat (getitem r inds))
+    (calcMat_sym _ hqJ (getitem_sym hsym inds))).2
+  have hM : calcMat (getitem r inds) (List.idxOf a (names (getitem r inds))) (List.idxOf b (names (getitem r inds))) = v := by
+    rw [calcMat_apply _ hqJ]; exact hcov.symm
+  rw [hinv _ _ (by rw [hM]; exact hv0), hM]
 end Pharmpy.C11
